@@ -158,6 +158,7 @@ type Op struct {
 	Dims   []uint64 `json:"dims,omitempty"`
 	Target string   `json:"target,omitempty"`
 	File   string   `json:"file,omitempty"`
+	Links  [][2]string `json:"links,omitempty"` // densegroup: link name -> target path
 	Short  int      `json:"short,omitempty"` // write: deliberately wrong element count (+/-)
 	BadTy  bool     `json:"bad_ty,omitempty"` // write: deliberately wrong Go type
 }
@@ -180,6 +181,7 @@ type Obj struct {
 	Links   map[string]*Link // groups
 	Order   []string         // creation order of link names
 	NLinks  int              // number of hard links pointing here
+	Dense   bool             // group created with CreateDenseGroup
 }
 
 type Link struct {
@@ -266,6 +268,18 @@ func (m *Model) Paths() map[string]*Link {
 	}
 	walk(m.Root, "/", map[int]bool{m.Root.ID: true})
 	return out
+}
+
+// resolveTarget resolves a link target: an object (through hard links), or the soft/external link a path names.
+func (m *Model) resolveTarget(p string) (*Obj, *Link) {
+	if o := m.Resolve(p); o != nil {
+		return o, nil
+	}
+	tp, tn := splitPath(p)
+	if pg := m.Resolve(tp); pg != nil && pg.Kind == "group" && pg.Links[tn] != nil && pg.Links[tn].Kind != "hard" {
+		return nil, pg.Links[tn]
+	}
+	return nil, nil
 }
 
 // ---- executor ----------------------------------------------------------------------------------------
@@ -379,6 +393,39 @@ func (e *Exec) Apply(op Op) (st Step) {
 			o.Dims = append([]uint64{}, op.D.Dims...)
 			m.addLink(parent, name, &Link{Kind: "hard", Obj: o})
 			e.DS[o.ID] = ds
+		}
+	case "densegroup":
+		mustCreate()
+		links := map[string]string{}
+		okTargets := true
+		for _, l := range op.Links {
+			links[l[0]] = l[1]
+			if o, alias := m.resolveTarget(l[1]); o == nil && alias == nil {
+				okTargets = false
+			}
+		}
+		if !okTargets {
+			st.Must = "fail"
+		}
+		err := e.FW.CreateDenseGroup(op.Path, links)
+		st.Err = errs(err)
+		if err == nil && st.Must != "fail" {
+			o := m.newObj("group")
+			o.Dense = true
+			for _, l := range op.Links {
+				if _, dup := o.Links[l[0]]; dup {
+					continue
+				}
+				t, alias := m.resolveTarget(l[1])
+				if t != nil {
+					t.NLinks++
+					m.addLink(o, l[0], &Link{Kind: "hard", Obj: t})
+				} else {
+					cp := *alias
+					m.addLink(o, l[0], &cp)
+				}
+			}
+			m.addLink(parent, name, &Link{Kind: "hard", Obj: o})
 		}
 	case "write", "writeraw":
 		o := m.Resolve(op.Path)
@@ -507,14 +554,28 @@ func (e *Exec) Apply(op Op) (st Step) {
 		}
 	case "hard":
 		tgt := m.Resolve(op.Target)
-		if !parentOK || exists || tgt == nil || op.Target == "/" {
+		// A target path that names a soft/external link: the library stores such links as pseudo objects
+		// (open finding KF-C03-01), so linking to one is neither mandated to fail nor to succeed.
+		var aliasOf *Link
+		if tgt == nil {
+			tp, tn := splitPath(op.Target)
+			if pg := m.Resolve(tp); pg != nil && pg.Kind == "group" && pg.Links[tn] != nil && pg.Links[tn].Kind != "hard" {
+				aliasOf = pg.Links[tn]
+			}
+		}
+		if !parentOK || exists || (tgt == nil && aliasOf == nil) || op.Target == "/" {
 			st.Must = "fail"
 		}
 		err := e.FW.CreateHardLink(op.Path, op.Target)
 		st.Err = errs(err)
 		if err == nil && st.Must != "fail" {
-			tgt.NLinks++
-			m.addLink(parent, name, &Link{Kind: "hard", Obj: tgt})
+			if aliasOf != nil {
+				cp := *aliasOf
+				m.addLink(parent, name, &cp)
+			} else {
+				tgt.NLinks++
+				m.addLink(parent, name, &Link{Kind: "hard", Obj: tgt})
+			}
 		}
 	case "soft":
 		mustCreate()
